@@ -76,11 +76,36 @@ pub fn same_json(a: &Value, b: &Value) -> bool {
     }
 }
 
-/// which expansion of its query a request is: position of its destination in the query's grid list
+/// a second expanding input stage (registered after grid search in a third of the batches): a query that carries
+/// `"dup": true` and has an even `destination_vertex` becomes two copies (`"copy": 1 | 2`); everything else passes
+/// unchanged - so the stage expands some of the outputs of the grid stage and not others
+pub struct DupEven {}
+impl routee_compass::plugin::input::input_plugin::InputPlugin for DupEven {
+    fn process(&self, input: &mut Value) -> Result<(), routee_compass::plugin::input::InputPluginError> {
+        let even = input.get("destination_vertex").and_then(|d| d.as_i64()).map(|d| d % 2 == 0).unwrap_or(false);
+        if input.get("dup").and_then(|d| d.as_bool()).unwrap_or(false) && even {
+            let mut a = input.clone();
+            let mut b = input.clone();
+            a["copy"] = json!(1);
+            b["copy"] = json!(2);
+            *input = Value::Array(vec![a, b]);
+        }
+        Ok(())
+    }
+}
+
+/// which expansion of its query a request is: its place in the enumeration "grid list in order, copies of one
+/// destination next to each other"
 fn ordinal(query: &Value, request: &Value) -> usize {
+    let dup = query.get("dup").and_then(|d| d.as_bool()).unwrap_or(false);
+    let copies = |d: &Value| if dup && d.as_i64().map(|x| x % 2 == 0).unwrap_or(false) { 2 } else { 1 };
+    let copy = request.get("copy").and_then(|c| c.as_u64()).unwrap_or(1) as usize;
     match query["grid_search"]["destination_vertex"].as_array() {
-        Some(list) => list.iter().position(|d| Some(d) == request.get("destination_vertex")).map(|p| p + 1).unwrap_or(0),
-        None => 1,
+        Some(list) => match list.iter().position(|d| Some(d) == request.get("destination_vertex")) {
+            Some(p) => list[..p].iter().map(copies).sum::<usize>() + copy,
+            None => 0,
+        },
+        None => copy,
     }
 }
 
@@ -179,11 +204,22 @@ fn run_app_scenario(out: &mut Out, scn: &Value, tag: usize) {
             CSV_TOML.replace("$SORTED", if scn["sorted"].as_bool().unwrap_or(false) { "true" } else { "false" })
         ),
     };
+    // a quarter of the batches: the load-balancer input plugin after grid search, weights from a numeric column (a
+    // query without it fails in the plugin) or from a categorical column with a default
+    let nq0 = scn["queries"].as_array().map(|a| a.len()).unwrap_or(0);
+    let lb = scn.get("lb").and_then(|l| l.as_str()).map(|l| l.to_string()).unwrap_or_else(|| {
+        if (nq0 * 7 + scn["par"].as_u64().unwrap_or(1) as usize) % 4 != 0 { String::from("none") } else if nq0 % 2 == 0 { String::from("numeric") } else { String::from("categorical") }
+    });
+    let input_plugins = match lb.as_str() {
+        "numeric" => "{ type = \"grid_search\" }, { type = \"load_balancer\", weight_heuristic = { type = \"custom\", custom_weight_type = { type = \"numeric\", column_name = \"w\" } } }",
+        "categorical" => "{ type = \"grid_search\" }, { type = \"load_balancer\", weight_heuristic = { type = \"custom\", custom_weight_type = { type = \"categorical\", column_name = \"size\", default = 2.0, mapping = { big = 9.0, small = 1.0 } } } }",
+        _ => "{ type = \"grid_search\" }",
+    };
     let mut opts = json!({
         "parallelism": scn["par"],
         "persistence": if scn["keep"].as_bool().unwrap_or(true) { "persist_response_in_memory" } else { "discard_response_from_memory" },
         "response_output_policy_toml": policy_toml,
-        "input_plugins_toml": "{ type = \"grid_search\" }",
+        "input_plugins_toml": input_plugins,
     });
     if scn["energy"].as_bool().unwrap_or(false) {
         // state shared between queries: the vehicle's prediction cache lives in the application's service
@@ -191,14 +227,35 @@ fn run_app_scenario(out: &mut Out, scn: &Value, tag: usize) {
         opts["cost_toml"] = json!(ENERGY_COST_TOML);
     }
     let files = write_app(&scn["net"], &opts, &format!("b{}", tag));
-    let app: CompassApp = match build_app(&files) {
+    let mut app: CompassApp = match build_app(&files) {
         Ok(a) => a,
         Err(e) => {
             out.event(json!({"ev": "BuildError", "msg": e}));
             return;
         }
     };
-    let queries: Vec<Value> = scn["queries"].as_array().unwrap().clone();
+    let mut queries: Vec<Value> = scn["queries"].as_array().unwrap().clone();
+    // a third of the batches: a second expanding input stage after grid search
+    let dup = scn.get("dup").and_then(|d| d.as_bool()).unwrap_or((queries.len() + scn["par"].as_u64().unwrap_or(1) as usize) % 3 == 0);
+    if dup {
+        app.input_plugins.push(Arc::new(DupEven {}));
+        for q in queries.iter_mut() {
+            q["dup"] = json!(true);
+        }
+    }
+    for (i, q) in queries.iter_mut().enumerate() {
+        if lb != "none" {
+            // the plugin writes the estimate itself (it legitimately replaces one the user gave)
+            q.as_object_mut().unwrap().remove("query_weight_estimate");
+        }
+        match lb.as_str() {
+            "numeric" if i % 5 == 4 => q["perr"] = json!(true),       // no weight column: rejected by the plugin
+            "numeric" => q["w"] = json!((i % 9) as f64 + 0.5),
+            "categorical" if i % 7 == 6 => q["perr"] = json!(true),    // no category column: rejected by the plugin (the default only covers unknown categories)
+            "categorical" => q["size"] = json!(["big", "small", "medium"][i % 3]),
+            _ => {}
+        }
+    }
     let qmap: HashMap<i64, Value> = queries.iter().map(|q| (q["qid"].as_i64().unwrap(), q.clone())).collect();
     // 1. every query alone (same kind of sink, writing to another file; responses kept)
     let alone_file = dir.join(format!("alone-{}.txt", tag));
@@ -215,7 +272,16 @@ fn run_app_scenario(out: &mut Out, scn: &Value, tag: usize) {
     for q in &queries {
         // with state shared between queries (the energy model's prediction cache) "alone" means alone in an application
         // that has served nothing else: a fresh one per query
-        let fresh = if scn["energy"].as_bool().unwrap_or(false) { build_app(&files).ok() } else { None };
+        let fresh = if scn["energy"].as_bool().unwrap_or(false) {
+            build_app(&files).ok().map(|mut a| {
+                if dup {
+                    a.input_plugins.push(Arc::new(DupEven {}));
+                }
+                a
+            })
+        } else {
+            None
+        };
         let r = fresh.as_ref().unwrap_or(&app).run(vec![q.clone()], Some(&alone_cfg));
         let items: Vec<Value> = match &r {
             Ok(rs) => rs.iter().map(|x| item_of(&qmap, x)).collect(),
